@@ -1,4 +1,8 @@
 import Memterm.Props.C05
+import Memterm.Props.C06
+import Memterm.Props.C07
+import Memterm.Props.C13
+import Memterm.Props.C18
 
 /-
   Executable property predicates, evaluated by the driver on the
@@ -11,6 +15,14 @@ namespace Memterm
 def propFailures (_env : Env) (cands : List Nat) (pre : Screen) (c : Call) (post : Screen) :
     List (String × String) :=
   (if C05.propC05 cands pre c post then [] else
-    [("C05", s!"expected cursor {repr (C05.expected pre c)}, got ({post.cursor.x},{post.cursor.y}), or something other than the cursor position changed")])
+    [("C05", s!"expected cursor {repr (C05.expected pre c)}, got ({post.cursor.x},{post.cursor.y}), or something other than the cursor position changed")]) ++
+  (if C06.propC06 cands pre c post then [] else
+    [("C06", s!"grid / cursor / margins after {c.name} differ from the documented outcome (cursor ({post.cursor.x},{post.cursor.y}), margins {repr post.margins})")]) ++
+  (if C07.propC07 cands pre c post then [] else
+    [("C07", s!"cells after {c.name} differ from the documented erased region, or cursor/settings changed")]) ++
+  (if C13.propC13 cands pre c post then [] else
+    [("C13", s!"cursor row after {c.name} is not the documented splice, or another row / the cursor / settings changed")]) ++
+  (if C18.propC18 cands pre c post then [] else
+    [("C18", s!"tab stops / cursor after {c.name} differ from the documented outcome (cursor.x={post.cursor.x})")])
 
 end Memterm
